@@ -115,6 +115,12 @@ theorem RingOK.yank_ok {k : KillRing} (h : RingOK k) : ∃ k' t, k.yank = .ok (k
     rw [hg]
     exact ⟨_, _, rfl, h.len, h.empty, h.idx, fun hh => by cases hh⟩
 
+theorem RingOK.yankCount {k : KillRing} (h : RingOK k) (n : Nat) : RingOK (k.yankCount n) := by
+  unfold KillRing.yankCount
+  split
+  · exact ⟨h.len, h.empty, h.idx, fun hh => by cases hh⟩
+  · exact h
+
 theorem RingOK.yankPop_ok {k : KillRing} (h : RingOK k) : ∃ k' r, k.yankPop = .ok (k', r) ∧ RingOK k' := by
   unfold KillRing.yankPop
   split
